@@ -624,6 +624,7 @@ func nesting(tier string) {
 	if usable < 20 {
 		core.Fatalf("only %d pumps are accepted by the parser at small depths", usable)
 	}
+	depthGuard(tier)
 	// recorded stacks must be paths of the extracted call graph
 	if len(traceLines) > 0 {
 		r, err := core.RunTLC(core.TLCOpts{Spec: "CallGraphTrace", Cfg: "CallGraphTrace.cfg", Workers: 1, Timeout: 5 * time.Minute,
